@@ -287,8 +287,21 @@ def pow2_sizes(max_n):
     return sorted(x for x in s if x <= max(max_n, 32))
 
 
+def corpus_cases():
+    """minimal inputs of the defects found on the pinned tree (D5, D6, D7); run first on every check"""
+    h2 = ac.bare_host(2)
+    return [
+        {'host': h2, 'k0': 1, 'call': ['weighted', ['str', 'AIG'], [[0, '0'], [0, '1']]]},
+        {'host': h2, 'k0': 1, 'call': ['naive', ['str', 'aig'], [[0, '0'], [0, '1']]]},
+        {'host': h2, 'k0': 1, 'call': ['naive', ['str', 'foo'], [[0, '0'], [0, '1']]]},
+        {'host': h2, 'k0': 1, 'call': ['pow2', ['enum', 'AIG'], False, ['0', '1']]},
+        {'host': h2, 'k0': 1, 'call': ['shift', 2, ['0'], ['1'], False]},
+        {'host': h2, 'k0': 1, 'call': ['shift', 3, ['0'], ['1'], True]},
+    ]
+
+
 def quick_cases(rng, max_n=12, max_pow2=32, wlen=4, wmax=3, n_random_w=40, pp_max=6, shift_max=5, thorough=False):
-    cases = []
+    cases = corpus_cases()
     # the straight-line cells (regenerated by T4): right and wrong operand counts
     for name, (_, arity) in CELLS.items():
         for on_host in (False, True):
